@@ -1,4 +1,4 @@
-# property -> harness binaries, mode string, budgets. Extended as harnesses are written.
+# property -> harness binaries, mode string, budgets. Single source for ./check and MANIFEST.json (mkmanifest.py).
 REAL_VS_STUB = {
     "real": ["all of xenium (headers from /repo, compiled from the working tree)", "libstdc++ header code (std::vector, std::sort, std::optional, ...)",
              "thread_local construction/destruction (real pthreads, glibc TLS)", "C++ exceptions (bad_hazard_pointer_alloc)"],
@@ -10,6 +10,25 @@ REAL_VS_STUB = {
 
 HARNESS_INFO = {}
 
+RECL = ["recl_a", "recl_b", "recl_c"]
+QUEUES = ["queues_ms", "queues_ram", "queues_nik"]
+ALL = RECL + QUEUES
+
 PROPS = {
-    "C04": {"mode": "C04", "harnesses": ["queues_ms", "queues_ram", "queues_nik"], "variants": ["P", "T"], "quick_s": 20, "thorough_s": 600},
+    "C01": {"mode": "C01", "harnesses": RECL, "quick_s": 25, "thorough_s": 900,
+            "title": "no object destroyed while a guard_ptr protects it"},
+    "C02": {"mode": "C02", "harnesses": RECL, "quick_s": 25, "thorough_s": 900,
+            "title": "retired objects destroyed exactly once, by their own deleter, never leaked"},
+    "C03": {"mode": "C03", "harnesses": ALL, "quick_s": 30, "thorough_s": 1200,
+            "title": "race-free and robust to weak executions"},
+    "C04": {"mode": "C04", "harnesses": QUEUES, "quick_s": 20, "thorough_s": 600,
+            "title": "michael_scott / ramalhete / nikolaev queues are linearizable FIFO queues"},
+    "C15": {"mode": "C15", "harnesses": RECL, "quick_s": 25, "thorough_s": 600,
+            "title": "marked_ptr / concurrent_ptr / guard_ptr smart pointer algebra"},
+    "C16": {"mode": "C16", "harnesses": ALL, "quick_s": 30, "thorough_s": 900,
+            "title": "lock-free operations finish in bounded solo steps"},
+    "C17": {"mode": "C17", "harnesses": RECL, "quick_s": 25, "thorough_s": 900,
+            "title": "dynamic threads: bookkeeping recycled, exited threads never block or leak"},
+    "C18": {"mode": "C18", "harnesses": ["recl_a"], "quick_s": 25, "thorough_s": 600,
+            "title": "hazard pointer / era slots: K available, exhaustion reported, reusable"},
 }
